@@ -659,9 +659,13 @@ static void e_ftlv(const unsigned char *p, size_t n, int variant, uint64_t h) {
 	}
 }
 
-static unsigned g_el_nodes;
+static unsigned g_el_nodes; static double g_el_work;
+/* The lookups below cost the library O(k^2) list copies for an element with k sub-elements (lists grow by a constant
+ * increment). To keep the time per input a property of the library call and not of how often this harness repeats it,
+ * every lookup is charged k + k*k/16 units and an input gets 2e7 units; the first lookup of an element is always made. */
+#define EL_BUDGET 2e7
 static void walk_el(KSI_CTX *ctx, KSI_TlvElement *el, int depth, uint64_t *h) {
-	KSI_FTLV kids[24]; size_t nk = 0, i; const unsigned char *pl;
+	KSI_FTLV kids[24]; unsigned tags[6]; size_t nk = 0, nt = 0, i, j, cnt = 0; const unsigned char *pl; double cost;
 	if (el == NULL || depth > 24 || g_el_nodes > 400 || el->ptr == NULL) return;
 	g_el_nodes++;
 	pl = el->ptr + el->ftlv.hdr_len;
@@ -669,10 +673,17 @@ static void walk_el(KSI_CTX *ctx, KSI_TlvElement *el, int depth, uint64_t *h) {
 	/* the tags to ask for come from an independent scan of the payload; unparsable payload: ask for a few anyway */
 	memset(kids, 0, sizeof(kids));
 	if (KSI_FTLV_memReadN(pl, el->ftlv.dat_len, kids, 24, &nk) != KSI_OK) { nk = 2; kids[0].tag = (unsigned)(*h & 0x1f); kids[1].tag = 0x01; }
-	for (i = 0; i < nk && i < 24; i++) {
-		KSI_TlvElement *sub = NULL; KSI_Utf8String *u = NULL; KSI_OctetString *o = NULL; KSI_Integer *n = NULL; unsigned tag = kids[i].tag;
+	if (KSI_FTLV_memReadN(pl, el->ftlv.dat_len, NULL, 0, &cnt) != KSI_OK) cnt = el->ftlv.dat_len / 2;
+	cost = (double)cnt + (double)cnt * (double)cnt / 16.0;
+	for (i = 0; i < nk && i < 24 && nt < 6; i++) { for (j = 0; j < nt; j++) if (tags[j] == kids[i].tag) break; if (j == nt) tags[nt++] = kids[i].tag; }
+	for (i = 0; i < nt; i++) {
+		KSI_TlvElement *sub = NULL; KSI_Utf8String *u = NULL; KSI_OctetString *o = NULL; KSI_Integer *n = NULL; unsigned tag = tags[i];
+		if (g_el_work > EL_BUDGET) { c12_stat[ST_EL_BUDGET_STOP]++; return; }
+		g_el_work += cost;
 		if (KSI_TlvElement_getElement(el, tag, &sub) == KSI_OK && sub) { walk_el(ctx, sub, depth + 1, h); }
 		KSI_TlvElement_free(sub);
+		if (g_el_work > EL_BUDGET) continue;
+		g_el_work += 3 * cost;
 		if (KSI_TlvElement_getUtf8String(el, ctx, tag, &u) == KSI_OK && u) { see_utf8(u); }
 		KSI_Utf8String_free(u);
 		if (KSI_TlvElement_getOctetString(el, ctx, tag, &o) == KSI_OK && o) { see_octet(o, h); }
@@ -706,7 +717,7 @@ static void e_tlvel(KSI_CTX *ctx, unsigned char *p, size_t n, int variant, uint6
 		c12_stat[ST_OK + E_TLVEL]++;
 		if (el->ftlv.hdr_len + el->ftlv.dat_len > n) oracle_fail("tlvelement-parse:ok-beyond-input", "KSI_OK with %llu + %llu > input %llu", (unsigned long long)el->ftlv.hdr_len, (unsigned long long)el->ftlv.dat_len, (unsigned long long)n);
 		el_serialize(el, variant, &h);
-		g_el_nodes = 0; walk_el(ctx, el, 0, &h);
+		g_el_nodes = 0; g_el_work = 0; walk_el(ctx, el, 0, &h);
 		el_serialize(el, variant, &h);     /* now with the sub-element lists populated */
 		if (variant & 1) {
 			KSI_TlvElement *rm = NULL; unsigned tag = (unsigned)(h >> 16) & 0x1f;
